@@ -487,19 +487,31 @@ static bool can_remove_braces(Chunk *bopen)
    }
 
    if (  pc->Is(CT_BRACE_CLOSE)
-      && pc->GetParentType() == CT_IF)
+      && (  pc->GetParentType() == CT_IF
+         || pc->GetParentType() == CT_ELSEIF))
    {
       Chunk *next     = pc->GetNextNcNnl(E_Scope::PREPROC);
       Chunk *tmp_prev = pc->GetPrevNcNnl(E_Scope::PREPROC);
 
-      if (  next->Is(CT_ELSE)
-         && tmp_prev->IsBraceClose()
-         && tmp_prev->GetParentType() == CT_IF)
+      // an 'if' without 'else' that ends the body - directly or as the last statement of
+      // brace-less loops / ifs - would take over the 'else' that follows the braces
+      while (  next->Is(CT_ELSE)
+            && tmp_prev->IsBraceClose())
       {
-         LOG_FMT(LBRDEL, "%s(%d):  - bailed on '%s'[%s] on line %zu due to 'if' and 'else' sequence\n",
-                 __func__, __LINE__, get_token_name(pc->GetType()), get_token_name(pc->GetParentType()),
-                 pc->GetOrigLine());
-         return(false);
+         if (  tmp_prev->GetParentType() == CT_IF
+            || tmp_prev->GetParentType() == CT_ELSEIF)
+         {
+            LOG_FMT(LBRDEL, "%s(%d):  - bailed on '%s'[%s] on line %zu due to 'if' and 'else' sequence\n",
+                    __func__, __LINE__, get_token_name(pc->GetType()), get_token_name(pc->GetParentType()),
+                    pc->GetOrigLine());
+            return(false);
+         }
+
+         if (tmp_prev->IsNot(CT_VBRACE_CLOSE))
+         {
+            break;
+         }
+         tmp_prev = tmp_prev->GetPrevNcNnl(E_Scope::PREPROC);
       }
    }
    LOG_FMT(LBRDEL, "%s(%d):  - end on '%s' on line %zu. if_count is %zu semi_count is %zu\n",
